@@ -406,6 +406,28 @@ def run_inst(run):
                 cx.count(("inst-rej", si, x), True, "val:instid:rejected:%s:%s" % (r[1] if len(r) > 1 else "?", mk))
                 verdicts[r[1] if len(r) > 1 else "?"] = verdicts.get(r[1] if len(r) > 1 else "?", 0) + 1
         n_acc += len(acc)
+        # (L) no lexical value may end in an internal error (finding F421: a variable reference as key value)
+        for x in lex:
+            r = run.get("validate %s %s" % (d, hexs(x)))
+            if r[:2] == ["err", "Internal"]:
+                cx.fail("val", "an instance-identifier lexical value ends in an internal error (LY_EINT) instead of a value error",
+                        {"type": d, "value_hex": hexs(x), "reply": r, "law": "inst_no_internal_error"})
+        # (L) two spellings that differ only in the order of the key predicates name the same instance: equal values (finding F422)
+        swaps = []
+        for x in sorted(acc):
+            m = re.search(rb"(\[[A-Za-z_][^\]]*\])(\[[A-Za-z_][^\]]*\])", x)
+            if m and m.group(1) != m.group(2):
+                y = x[:m.start()] + m.group(2) + m.group(1) + x[m.end():]
+                swaps.append((x, y))
+            if len(swaps) >= cx.n(4, 40):
+                break
+        run.diff(["validate %s %s" % (d, hexs(y)) for _, y in swaps] + ["cmp %s %s %s" % (d, hexs(x), hexs(y)) for x, y in swaps])
+        for x, y in swaps:
+            r = run.get("cmp %s %s %s" % (d, hexs(x), hexs(y)))
+            cx.count(("inst-swap", si, x), True, "val:instid:key-order-pair")
+            if r[0] == "ok" and r[1] != "1":
+                cx.fail("val", "two instance-identifier values that differ only in the order of the key predicates (the same instance) are not equal",
+                        {"type": d, "a_hex": hexs(x), "b_hex": hexs(y), "reply": r, "law": "inst_same_instance_equal"})
         # hints, LYB, canonical stored again
         cases = []
         some = sorted(acc)[:: max(1, len(acc) // cx.n(6, 40))] + [b"", b"/x"]
